@@ -945,6 +945,62 @@ def gen_array_case(rng):
             "bare": (not share) and rng.random() < 0.25, "entries": entries, "steps": steps()}
 
 
+def gen_removal_case(rng):
+    n = rng.choice([3, 3, 4])
+    kind = rng.choice(["middle", "middle", "trailing", "both", "first"])
+    remove = {"middle": [rng.randrange(1, n - 1)], "trailing": [n - 1], "both": [1, n - 1], "first": [0]}[kind]
+    steps = []
+    for _ in range(rng.choice([1, 1, 2])):
+        form = rng.choice(["dict", "db", "pickle"])
+        steps.append({"form": form, "variant": {"dict": rng.choice(["dict", "autoconf", "file"]), "pickle": "pickle", "db": "fit"}[form]})
+    return {"kind": "removal", "n": n, "remove": remove, "frozen": rng.random() < 0.3, "steps": steps}
+
+
+def run_removal_oracle(ctx, c, r):
+    ctx.count_case(c, True, kind="removal")
+    ctx.oracle["cases"] += 1
+    if "exc" in r:
+        ctx.failure("oracle", "removal driver raised %s" % r.get("msg", "")[-300:], c)
+        return
+    r = r["ok"]
+    fails = []
+    prev = r["before"]
+    trailing_only = max(c["remove"]) == c["n"] - 1         # the highest positional item was removed
+    for k, st in enumerate(r["steps"]):
+        form = c["steps"][k]["form"]
+        if "exc" in st:
+            fails.append("%s round trip (step %d) raised %s: %s" % (form, k + 1, st["exc"], st.get("msg")))
+            break
+        v = st["view"]
+        if v["keys"] != prev["keys"] or v["count"] != prev["count"] or v["paths"] != prev["paths"]:
+            fails.append("%s round trip (step %d): keys %s -> %s, prior_count %s -> %s" % (form, k + 1, prev["keys"], v["keys"], prev["count"], v["count"]))
+        if v["item_number"] != prev["item_number"]:
+            if trailing_only and form in ("dict", "db") and v["item_number"] == (max([int(x) for x in v["keys"] if x.isdigit()], default=-1) + 1):
+                # not recoverable from the stored keys and without effect on the composition: an observable, see notes
+                ctx.hist("item-number-after-trailing-removal", "%s: %s -> %s" % (form, prev["item_number"], v["item_number"]))
+            else:
+                fails.append("%s round trip (step %d): item_number %s -> %s (keys %s)" % (form, k + 1, prev["item_number"], v["item_number"], v["keys"]))
+        prev = v
+    aa = r.get("after_append")
+    if aa is not None and not any(" raised " in f for f in fails):
+        if "exc" in aa:
+            fails.append("append after the reload raised %s: %s" % (aa["exc"], aa.get("msg")))
+        else:
+            o, l = aa["original"], aa["reloaded"]
+            if o["count"] != l["count"] or len(o["keys"]) != len(l["keys"]):
+                fails.append("after one append the reloaded collection has %d items / %d parameters, the original %d / %d (an item was overwritten)"
+                             % (len(l["keys"]), l["count"], len(o["keys"]), o["count"]))
+            elif o["keys"] != l["keys"]:
+                if trailing_only and any(s["form"] in ("dict", "db") for s in c["steps"]):
+                    ctx.hist("appended-key-after-trailing-removal", "%s vs %s" % (o["keys"][-1], l["keys"][-1]))
+                else:
+                    fails.append("after one append the keys differ: original %s, reloaded %s" % (o["keys"], l["keys"]))
+    for msg in fails:
+        ctx.oracle["failures"] += 1
+        ctx.failure("oracle", "collection with removed items %s of %d: %s" % (c["remove"], c["n"], msg), c, impl=r)
+    return not fails
+
+
 def compare_arrays(prev, nxt):
     out = []
     if [p for p, _ in prev["path_ids"]] != [p for p, _ in nxt["path_ids"]]:
@@ -1056,6 +1112,8 @@ def run(ctx):
         cases.append(c)
     for _ in range(24 if ctx.tier == "quick" else 160):
         cases.append(gen_array_case(ctx.rng))
+    for _ in range(16 if ctx.tier == "quick" else 100):
+        cases.append(gen_removal_case(ctx.rng))
     if ctx.replay:
         rp = json.load(open(ctx.replay))
         if rp.get("case"):
@@ -1093,15 +1151,20 @@ def run(ctx):
                 "finding-dict-loggaussian.json": "dict-loggaussian-no-mean-sigma", "finding-dict-falsy-constant.json": "dict-branch-drops-falsy-values",
                 "finding-dict-array.json": "dict-array-not-registered", "finding-array-db-int-shape.json": "array-db-int-shape",
                 "finding-db-int-as-float.json": "db-int-as-float", "finding-db-collection-item-number.json": "db-collection-item-number",
-                "finding-dict-zero-prior-instance.json": "dict-zero-prior-model-as-instance", "finding-modified-prior.json": "modified-prior-not-storable"}
+                "finding-dict-zero-prior-instance.json": "dict-zero-prior-model-as-instance", "finding-modified-prior.json": "modified-prior-not-storable",
+                "finding-reload-item-number-after-removal-dict.json": "reload-item-number-after-removal",
+                "finding-reload-item-number-after-removal-db.json": "reload-item-number-after-removal"}
     for i, (c, r) in enumerate(zip(cases, results)):
         before = len(ctx.violations) + sum(h["count"] for h in ctx.known_hits.values())
         try:
+            if c.get("kind") == "removal":
+                run_removal_oracle(ctx, c, r)
+                continue
             if c.get("kind") in ("array", "modified"):
                 run_array_oracle(ctx, c, r)
                 continue
         finally:
-            if c.get("kind") in ("array", "modified") and pinned.get(i) in REPAIRED and REPAIRED[pinned[i]] in fixed_sigs and not ctx.replay:
+            if c.get("kind") in ("array", "modified", "removal") and pinned.get(i) in REPAIRED and REPAIRED[pinned[i]] in fixed_sigs and not ctx.replay:
                 after = len(ctx.violations) + sum(h["count"] for h in ctx.known_hits.values())
                 ctx.obligation("regression:" + REPAIRED[pinned[i]], "regression", after == before,
                                "" if after == before else "the pinned case of a repaired finding fails again (%s)" % fixed_sigs[REPAIRED[pinned[i]]].get("commit"))
@@ -1172,6 +1235,12 @@ def run(ctx):
         if i % 30 == 0:
             ctx.sample({"features": sorted(feats), "n_priors": len(prog["pool"]), "trips": [s["form"] for s in c["steps"]],
                         "outcomes": ["ok" if "ok" in s else s["exc"] for s in r["steps"]], "paths": r["states"][0]["paths"][:5]})
+    ctx.notes["item_number_after_trailing_removal"] = {
+        "statement": "when the HIGHEST positional item was removed before the trip, the original's counter cannot be recovered from the stored keys: "
+                     "dict and database reloads give (highest remaining key + 1); no composition changes at reload and append stays collision-free, "
+                     "but the key (hence the paths) of an item appended afterwards differs from the original's; observed, not required",
+        "item_number": dict(ctx.distribution.get("item-number-after-trailing-removal", {})),
+        "appended_key original vs reloaded": dict(ctx.distribution.get("appended-key-after-trailing-removal", {}))}
     # observable, not a requirement of C08 (the property is about composition): which forms keep the frozen flag
     ctx.notes["frozen_flag_across_a_trip (form: before -> after: trips)"] = dict(ctx.distribution.get("frozen-flag", {}))
     if os.path.exists(os.path.join(common.COQ, "C08", "Model.vo")):
